@@ -347,10 +347,13 @@ where
                         err: err.prettify(&policy.program),
                     },
                 );
-                return ControlFlow::Break(());
+                // a stray schedule must not stop a computation that is already under way
+                if matches!(self.state_kind, PolicyStateKind::Init) {
+                    return ControlFlow::Break(());
+                }
+                return ControlFlow::Continue(self);
             }
         };
-        self.init_channel(&policy);
 
         if is_leader {
             if !matches!(self.state_kind, PolicyStateKind::Init) {
@@ -364,6 +367,7 @@ where
                 return ControlFlow::Continue(self);
             }
             record_span_fields(&self.start_span, &policy.computation_id, policy.party);
+            self.init_channel(&policy);
             let client = self.client_builder.new_client(&policy);
 
             trace!("sending validate to followers");
@@ -430,6 +434,13 @@ where
         } else {
             // Schedule on a follower
             let client = self.client_builder.new_client(&policy);
+            // only the states that accept a schedule may (re)initialise the channel
+            if matches!(
+                self.state_kind,
+                PolicyStateKind::Init | PolicyStateKind::ValidateRequested { .. }
+            ) {
+                self.init_channel(&policy);
+            }
 
             match self.state_kind {
                 PolicyStateKind::Init => {
